@@ -78,11 +78,13 @@ func discharge(o *Oblig, opts solveOpts) {
 		return
 	}
 	q := o.query(opts.timeoutSec)
-	if strings.TrimSpace(o.Goal) == "true" && !o.ExpectSat {
+	if strings.TrimSpace(o.Goal) == "true" && !o.ExpectSat && o.Raw == "" {
 		o.Result, o.Solver = "unsat", "trivial"
 		return
 	}
-	q += "(get-model)\n"
+	if o.Raw == "" {
+		q += "(get-model)\n"
+	}
 	fname := filepath.Join(opts.workDir, mangle(o.Name)+".smt2")
 	if err := os.WriteFile(fname, []byte(q), 0o644); err != nil {
 		o.Result = "error"
